@@ -44,7 +44,8 @@ RULE = (
     "with the key separator; export: every pooled geometry x cast x raise_on_time_geometries x samplerate (each "
     "option also omitted) and every list of 0..n kinds x ignore_errors; export_decimal: every interval [k/den, (k+1)/den] of "
     "each non-dyadic family (den = 100, 1000, 44100, 22050, ...) x samplerate through segment / sequence / annotation[seq] "
-    "export (non-trivial when some time x samplerate is not an integer in double arithmetic); roundtrip: export(import(x)) at expansion 1 "
+    "export (non-trivial when some time x samplerate is not an integer in double arithmetic); all three export spaces x the "
+    "recording's time expansion (export_list: every list at expansion 1, lists up to export_list_te_maxlen at the others); roundtrip: export(import(x)) at expansion 1 "
     "with value_only labels. Non-trivial: import with expansion != 1 or sample units; cascade / label with a "
     "non-empty label or tag list and >= 2 options given; export whose geometry is not already of the target type or "
     "is unconvertible; roundtrip with >= 2 elements. distinct = distinct case descriptor."
@@ -54,6 +55,14 @@ ASSUMPTIONS = [
     "import results are compared exactly whenever the exact answer is a float, otherwise (samplerate 44100 or a "
     "non-dyadic expansion) within the declared relative tolerance 1e-9",
     "Recording.samplerate is the real (adjusted) rate, so the file samplerate of the property is samplerate / time_expansion",
+    "export: the model's samplerate is Recording.samplerate (file rate x time_expansion), for the sample indices floor(time x samplerate) "
+    "and for the Nyquist cap samplerate / 2. Reason: a sound event's times are on the real (expansion-adjusted) time scale, "
+    "Recording.samplerate is documented as the real rate, real time x real rate = file time x file rate is the sample position in "
+    "the file, and it is the inverse of the import formula samples / (samplerate / expansion) / expansion; hence the recording's "
+    "time_expansion (enumerated over {1, 10, 1/2} in export, export_list and export_decimal) must not change any exported "
+    "value. Exported onset_s / offset_s are the geometry's (real) times. Roundtrip exactness is claimed for expansion 1 only",
+    "import and roundtrip labels include 'e', 'empty' and '' (substrings of the default empty label '__empty__'): with the default "
+    "or any explicit empty_labels only a label that IS one of the empty labels gives no tags",
     "a ValueError raised by tag_fn falls through to the remaining steps (DESIGN.md C10; pinned by the repository's suite), "
     "although the docstring's step 2 does not say so",
     "NOT judged: term_mapping hit together with tag_mapping hit (docstring step order and the property's summary order disagree)",
@@ -83,22 +92,24 @@ def P(tier):
             "times": [0, 0.125, 1, 2.5], "freqs": [0, 125, 1000], "srs": [8, 8000, 44100], "tes": ["1", "2", "10", "1/2"],
             "seq_times": [0, 0.125, 1, 2.5], "seq_maxlen": 3, "seq_extra_maxlen": 0,
             "box_list_times": [0, 0.125, 1, 2.5], "box_list_freqs": [0, 125, 1000], "box_maxlen": 3,
-            "labels": ["a", "__empty__", "b"],
+            "labels": ["a", "__empty__", "b", "e", "empty", ""],
             "export_times": [0, 0.125, 0.1875, 1, 2.5], "export_freqs": [0, 125, 1000], "export_srs": [8, 8000, 44100],
             "export_maxlen": 3, "indices": [None, -1, 0, 1, 2, 5, 4, -4],
             "decimal_families": [[100, 300], [1000, 1000], [44100, 400], [22050, 400]],
             "decimal_srs": [100, 1000, 8000, 22050, 44100],
+            "export_tes": ["1", "10", "1/2"], "export_list_te_maxlen": 2,
         }
     return {
         "times": [0, 0.125, 0.5, 1, 2.5, 4], "freqs": [0, 125, 1000, 4000, 30000], "srs": [8, 8000, 44100, 96000],
         "tes": ["1", "2", "10", "1/2", "4", "3"],
         "seq_times": [0, 0.125, 0.5, 1, 2.5, 4], "seq_maxlen": 3, "seq_extra_maxlen": 4,
         "box_list_times": [0, 0.125, 1, 2.5], "box_list_freqs": [0, 125, 1000, 4000], "box_maxlen": 3,
-        "labels": ["a", "__empty__", "b", "", "x", "other"],
+        "labels": ["a", "__empty__", "b", "e", "empty", "", "_", "pty", "x", "other", "__empty__ "],
         "export_times": [0, 0.125, 0.1875, 0.5, 1, 2.5, 4], "export_freqs": [0, 125, 1000, 5000], "export_srs": [8, 8000, 44100, 96000],
         "export_maxlen": 4, "indices": [None, -1, 0, 1, 2, 5, 4, -4, 3, 7, -7],
         "decimal_families": [[100, 1000], [1000, 5000], [44100, 3000], [22050, 3000], [48000, 3000], [10, 100], [3, 300]],
         "decimal_srs": [100, 1000, 8000, 22050, 44100, 48000, 96000, 192000],
+        "export_tes": ["1", "10", "1/2", "2"], "export_list_te_maxlen": 3,
     }
 
 
@@ -182,7 +193,7 @@ def fnum(x):
 
 # =========================================================================== IMPORT
 UNITS = ["s", "samples", "both"]
-POS_LABELS = ["a", "b", "c", "d"]
+POS_LABELS = ["e", "empty", "a", ""]  # distinct per position; "e", "empty", "" are substrings of the default empty label
 IMPORT_FN = {
     "segment": "segment_to_annotation", "bbox": "bbox_to_annotation", "sequence": "sequence_to_annotations",
     "annotation_seq": "annotation_to_clip_annotation[seq]", "annotation_bbox": "annotation_to_clip_annotation[bbox]",
@@ -800,6 +811,10 @@ def check_box(out, box, m, cls, detail):
     out.expect("export_freqs", cm.same_number(f[2], m[2]) and cm.same_number(f[3], m[3]), f[2:], [str(m[2]), str(m[3])], cls, detail)
 
 
+def te_cls(te):
+    return "1" if te == 1 else "!=1"
+
+
 def why_of(m):
     return m[1] if m[0] == "reject" else "convertible"
 
@@ -808,7 +823,8 @@ def run_export(case):
     out = Out(case)
     fn, kind, coords, sr = case["fn"], case["kind"], case["coords"], case["sr"]
     cast, raise_t = case["cast"], case.get("raise_t")
-    rec = mkrec(sr)
+    te = F(case.get("te", "1"))
+    rec = mkrec(sr, float(te))  # sr is Recording.samplerate (the real rate); the expansion must not change any export output
     ev = mk_event(rec, kind, coords, [xreal(t) for t in EV_TAGS])
     ceff = True if cast is None else cast  # documented defaults: cast True, raise_on_time_geometries True
     if fn == "segment":
@@ -818,7 +834,7 @@ def run_export(case):
         reff = True if raise_t is None else raise_t
         r = export_call("bbox", [ev], opt_kw(cast_to_bbox=cast, raise_on_time_geometries=raise_t))
         m = cm.export_bbox(kind, coords, ceff, reff, sr)
-    cls = {"fn": EXPORT_FN[fn], "kind": kind or "none", "why": why_of(m)}
+    cls = {"fn": EXPORT_FN[fn], "kind": kind or "none", "why": why_of(m), "te": te_cls(te)}
     if m[0] == "reject":
         out.expect("export_decision", r[0] == "reject", [r[0], r[1] if r[0] != "ok" else repr(r[1][0])], ["reject", m[1]], cls)
     elif out.expect("export_decision", r[0] == "ok", list(r), "converted", cls):
@@ -829,25 +845,28 @@ def run_export(case):
             check_box(out, el, m[1], cls, None)
         out.expect("export_label", el.label == "k1:v1", el.label, "k1:v1", cls)
     out.nontrivial = m[0] == "reject" or kind != ("TimeInterval" if fn == "segment" else "BoundingBox")
-    out.klass = "export:%s:%s" % (fn, why_of(m))
+    out.klass = "export:%s:%s:te%s" % (fn, why_of(m), te_cls(te))
     return out
 
 
 def gen_export(p):
     pool = export_pool(p)
-    for kind, coords in pool:
-        for sr in p["export_srs"]:
-            for cast in (None, True, False):
-                yield {"space": "export", "fn": "segment", "kind": kind, "coords": coords, "cast": cast, "sr": sr}
-                for raise_t in (None, True, False):
-                    yield {"space": "export", "fn": "bbox", "kind": kind, "coords": coords, "cast": cast, "raise_t": raise_t, "sr": sr}
+    for te in p["export_tes"]:
+        for kind, coords in pool:
+            for sr in p["export_srs"]:
+                for cast in (None, True, False):
+                    yield {"space": "export", "fn": "segment", "kind": kind, "coords": coords, "cast": cast, "sr": sr, "te": te}
+                    for raise_t in (None, True, False):
+                        yield {"space": "export", "fn": "bbox", "kind": kind, "coords": coords, "cast": cast,
+                               "raise_t": raise_t, "sr": sr, "te": te}
 
 
 def run_export_list(case):
     out = Out(case)
     fn, kinds, sr = case["fn"], case["kinds"], case["sr"]
     cast, ignore, raise_t = case["cast"], case["ignore"], case.get("raise_t")
-    rec = mkrec(sr)
+    te = F(case.get("te", "1"))
+    rec = mkrec(sr, float(te))
     events = []
     for i, k in enumerate(kinds):
         gk, gc = LIST_POOL[k]
@@ -870,7 +889,8 @@ def run_export_list(case):
     m = cm.export_list(outcomes, ieff)
     r = export_call(fn, events, kw)
     nrej = sum(1 for o in outcomes if o[0] == "reject")
-    cls = {"fn": EXPORT_FN[fn], "ignore_errors": DEFAULT if ignore is None else ignore, "unconvertible": min(nrej, 1)}
+    cls = {"fn": EXPORT_FN[fn], "ignore_errors": DEFAULT if ignore is None else ignore, "unconvertible": min(nrej, 1),
+           "te": te_cls(te)}
     if m[0] == "reject":
         out.expect("unconvertible_policy", r[0] == "reject", [r[0], r[1] if r[0] != "ok" else len(r[1])],
                    ["reject", "element %d is unconvertible" % m[1]], cls)
@@ -880,7 +900,7 @@ def run_export_list(case):
         want = ["pos:%d" % i for i, _ in m[1]]
         out.expect("export_order", got == want, got, want, cls)
         for el, (i, val) in zip(r[1], m[1]):
-            c2 = {"fn": EXPORT_FN[fn], "kind": kinds[i], "why": "convertible"}
+            c2 = {"fn": EXPORT_FN[fn], "kind": kinds[i], "why": "convertible", "te": te_cls(te)}
             if is_box:
                 check_box(out, el, val, c2, {"index": i})
             else:
@@ -891,16 +911,20 @@ def run_export_list(case):
 
 
 def gen_export_list(p):
-    for n in range(0, p["export_maxlen"] + 1):
-        for kinds in itertools.product(LIST_KINDS, repeat=n):
-            for sr in p["export_srs"]:
-                for cast in (True, False):
-                    for ignore in (None, True, False):
-                        for fn in ("sequence", "annotation_seq"):
-                            yield {"space": "export_list", "fn": fn, "kinds": list(kinds), "cast": cast, "ignore": ignore, "sr": sr}
-                        for raise_t in (True, False):
-                            yield {"space": "export_list", "fn": "annotation_bbox", "kinds": list(kinds), "cast": cast,
-                                   "ignore": ignore, "raise_t": raise_t, "sr": sr}
+    """Expansion 1: every list up to export_maxlen; every other expansion: every list up to export_list_te_maxlen."""
+    for te in p["export_tes"]:
+        maxlen = p["export_maxlen"] if te == "1" else min(p["export_maxlen"], p["export_list_te_maxlen"])
+        for n in range(0, maxlen + 1):
+            for kinds in itertools.product(LIST_KINDS, repeat=n):
+                for sr in p["export_srs"]:
+                    for cast in (True, False):
+                        for ignore in (None, True, False):
+                            for fn in ("sequence", "annotation_seq"):
+                                yield {"space": "export_list", "fn": fn, "kinds": list(kinds), "cast": cast, "ignore": ignore,
+                                       "sr": sr, "te": te}
+                            for raise_t in (True, False):
+                                yield {"space": "export_list", "fn": "annotation_bbox", "kinds": list(kinds), "cast": cast,
+                                       "ignore": ignore, "raise_t": raise_t, "sr": sr, "te": te}
 
 
 # =========================================================================== EXPORT, non-dyadic times
@@ -911,14 +935,15 @@ def run_export_decimal(case):
     """Intervals [k0/den, k1/den] (doubles k/den) exported through the exporters that emit sample indices."""
     out = Out(case)
     fn, geom, sr, den, ks = case["fn"], case["geom"], case["sr"], case["den"], case["ks"]
-    rec = mkrec(sr)
+    te = F(case.get("te", "1"))
+    rec = mkrec(sr, float(te))
     ivs = [(k0 / den, k1 / den) for k0, k1 in ks]
     events = []
     for i, (t0, t1) in enumerate(ivs):
         coords = [t0, t1] if geom == "TimeInterval" else [t0, 0.0, t1, 1000.0]
         events.append(mk_event(rec, geom, coords, [xreal(("pos", str(i)))]))
     r = export_call(fn, events, {})
-    cls = {"fn": EXPORT_FN[fn], "kind": geom, "why": "decimal_time"}
+    cls = {"fn": EXPORT_FN[fn], "kind": geom, "why": "decimal_time", "te": te_cls(te)}
     out.transitions = 1
     judged = vac = 0
     fractional = False
@@ -949,21 +974,23 @@ def run_export_decimal(case):
 
 
 def gen_export_decimal(p):
-    for den, kmax in p["decimal_families"]:
-        for sr in p["decimal_srs"]:
-            # every k/den is the onset of one interval and the offset of the previous one
-            for k in range(0, kmax):
-                geom = "TimeInterval" if k % 2 == 0 else "BoundingBox"
-                yield {"space": "export_decimal", "fn": "segment", "geom": geom, "sr": sr, "den": den, "ks": [[k, k + 1]]}
-            for fn in ("sequence", "annotation_seq"):
-                for k in range(0, kmax - 2, 3):
-                    geom = "TimeInterval" if (k // 3) % 2 == 0 else "BoundingBox"
-                    yield {"space": "export_decimal", "fn": fn, "geom": geom, "sr": sr, "den": den,
-                           "ks": [[k, k + 1], [k + 1, k + 2], [k + 2, k + 3]]}
+    for te in p["export_tes"]:
+        for den, kmax in p["decimal_families"]:
+            for sr in p["decimal_srs"]:
+                # every k/den is the onset of one interval and the offset of the previous one
+                for k in range(0, kmax):
+                    geom = "TimeInterval" if k % 2 == 0 else "BoundingBox"
+                    yield {"space": "export_decimal", "fn": "segment", "geom": geom, "sr": sr, "den": den, "ks": [[k, k + 1]],
+                           "te": te}
+                for fn in ("sequence", "annotation_seq"):
+                    for k in range(0, kmax - 2, 3):
+                        geom = "TimeInterval" if (k // 3) % 2 == 0 else "BoundingBox"
+                        yield {"space": "export_decimal", "fn": fn, "geom": geom, "sr": sr, "den": den,
+                               "ks": [[k, k + 1], [k + 1, k + 2], [k + 2, k + 3]], "te": te}
 
 
 # =========================================================================== ROUNDTRIP
-RT_LABELS = ["a", "__empty__", "b", "c"]
+RT_LABELS = ["e", "__empty__", "empty", ""]
 
 
 def run_roundtrip(case):
